@@ -104,7 +104,9 @@ def forward_vals(case, vals):
             o2 = v.Log().tensor()
         else:
             o2 = v.tensor() if isinstance(v, pp.LieTensor) else v
-        outs.append(o2 * 0.5)
+        # "alias": the second residual IS the parameter (a prior pulling it to zero, written as `return err, self.b`): no copy between the
+        # parameter's storage and what the corrector / solver get - an in-place operation on the residual would edit the parameter
+        outs.append(o2 if case.get("out2_alias") and case["inputs"][0]["kind"] != "G" else o2 * 0.5)
     return tuple(outs)
 
 
@@ -350,7 +352,8 @@ def model_case(draw, tier):
             "weight_at_step": draw(st.booleans()),
             # an optimizer object with a past: an EARLIER step() on the same object, with another per-call weight ("weight") or without
             # arguments ("plain"); the judged step is the one after it.  The statement is about every step, not the first of an object.
-            "prestep": draw(st.sampled_from((None, None, None, None, None, "weight", "plain")))}
+            "prestep": draw(st.sampled_from((None, None, None, None, None, "weight", "plain"))),
+            "out2_alias": draw(st.sampled_from((False, False, True)))}
     return case
 
 
